@@ -1180,6 +1180,7 @@ class InitModes(FnSpec):
         cx.assume(L.n > 0)
         r.fields["__files__"] = L
         r.fields["_ublocks"] = SMap.fresh(TPath(), TRef("IH5UserBlock"), "ret_ublocks")
+        r.fields["_record"] = r  # IH5Group.__init__(ret, ret): the record every node created from it refers to (node.file)
         r.how = how
         return r
 
@@ -1215,6 +1216,11 @@ class InitModes(FnSpec):
             ap = a.self.fields.get("_allow_patching")
             ap_t = ap.t if isinstance(ap, SBool) else z3.BoolVal(bool(ap))
             out.append(("r-is-strictly-read-only", ap_t == z3.Not(eq("r")), "'r' disables creating, committing and discarding patches"))
+            # nodes are created as IH5Group(self._record, ...): what they call `.file` is the object `_record` names after the state was copied
+            noderec = a.self.fields.get("_record", a.self)
+            ap2 = noderec.fields.get("_allow_patching") if isinstance(noderec, SObj) else None
+            ap2_t = ap2.t if isinstance(ap2, SBool) else (z3.BoolVal(bool(ap2)) if ap2 is not None else z3.BoolVal(True))
+            out.append(("r-is-strictly-read-only:through-node.file", ap2_t == z3.Not(eq("r")), "the record that nodes hand out as .file has the same mode: no patch can be created, committed or discarded through a node of a record opened 'r'"))
             made_patch = "create_patch" in names
             out.append(("new-patch-iff-writable-mode-and-fully-committed", z3.BoolVal(made_patch) == z3.And(z3.Not(eq("r")), z3.Not(a.opened_writable)), "'r+'/'a' start a new patch exactly when the newest container is already committed"))
         return out
